@@ -292,30 +292,34 @@ def search(ctx):
     # shrink: drop top-level paragraphs of both orders while they still disagree
     d = describe(it, v, c, k)
     if len(d["order_a"]) == 1 and len(d["order_b"]) == 1:
-        pa = [x for x in d["order_a"]["/main.sy"].split("\n\n") if x.strip()]
-        pb = [x for x in d["order_b"]["/main.sy"].split("\n\n") if x.strip()]
+        def paras(src):
+            if src.startswith(rg.EXT_PRINT):
+                src = src[len(rg.EXT_PRINT):]
+            return [x.strip("\n") for x in src.split("\n\n") if x.strip()]
+
+        def render(ps):
+            return rg.EXT_PRINT + "\n\n".join(ps) + "\n"
+        pa, pb = paras(d["order_a"]["/main.sy"]), paras(d["order_b"]["/main.sy"])
+        res0 = c12.run_traces([rg.single(render(pa), False), rg.single(render(pb), False)])
+        kind0 = (res0[0][0], res0[1][0])
 
         def fails(cands):
             lines = []
             for keep in cands:
                 ks = set(keep)
-                lines.append(rg.single("\n\n".join(x for x in pa if x in ks) + "\n", False))
-                lines.append(rg.single("\n\n".join(x for x in pb if x in ks) + "\n", False))
+                lines.append(rg.single(render([x for x in pa if x in ks]), False))
+                lines.append(rg.single(render([x for x in pb if x in ks]), False))
             res = c12.run_traces(lines)
-            out = []
-            for i in range(len(cands)):
-                a, b = res[2 * i], res[2 * i + 1]
-                # the shrunk pair must still be a violation of the same kind (and must not merely fail to compile)
-                out.append(a != b and not (a[0] == "ERR" and b[0] == "ERR" and a[1] == b[1]) and
-                           (a[0] == "OK" or b[0] == "OK"))
-            return out
-        keep = vlib.shrink_seq(pa, fails)
-        ks = set(keep)
-        d["order_a"] = {"/main.sy": "\n\n".join(x for x in pa if x in ks) + "\n"}
-        d["order_b"] = {"/main.sy": "\n\n".join(x for x in pb if x in ks) + "\n"}
-        d["cases"] = [rg.single(d["order_a"]["/main.sy"], False), rg.single(d["order_b"]["/main.sy"], False)]
-        res = c12.run_traces(d["cases"])
-        d["what"] = judge({"cls": it["cls"]}, res)[0] or v
+            # the shrunk pair must still be a violation of the same kind
+            return [res[2 * i] != res[2 * i + 1] and (res[2 * i][0], res[2 * i + 1][0]) == kind0
+                    and judge({"cls": ""}, [res[2 * i], res[2 * i + 1]])[0] is not None for i in range(len(cands))]
+        if sorted(pa) == sorted(pb) and fails([pa])[0]:
+            keep = set(vlib.shrink_seq(pa, fails))
+            d["order_a"] = {"/main.sy": render([x for x in pa if x in keep])}
+            d["order_b"] = {"/main.sy": render([x for x in pb if x in keep])}
+            d["cases"] = [rg.single(d["order_a"]["/main.sy"], False), rg.single(d["order_b"]["/main.sy"], False)]
+            res = c12.run_traces(d["cases"])
+            d["what"] = judge({"cls": it["cls"]}, res)[0] or v
     d["failing_inputs_found"] = len(un)
     return d
 
